@@ -506,11 +506,14 @@ Warning: rounding to n-th business day not supported for input value");
 		switch (d.typ) {
 			unsigned int nw;
 		case DT_YWD:
-			if ((forw && d.ywd.c < tgt) ||
-			    (!forw && d.ywd.c > tgt)) {
+			/* a target beyond this year's last week is the last */
+			nw = __get_isowk(d.ywd.y);
+			nw = tgt <= nw ? tgt : nw;
+			if ((forw && d.ywd.c < nw) ||
+			    (!forw && d.ywd.c > nw)) {
 				/* no year adjustment */
 				;
-			} else if (d.ywd.c == tgt && !nextp) {
+			} else if (d.ywd.c == nw && !nextp) {
 				/* we're IN the week already and no
 				 * next/prev date is requested */
 				;
